@@ -47,6 +47,42 @@ THEOREMS = [
     "Verif.C07.F9_witness",
     "Verif.C07.tether_maps_chosen_points",
     "Verif.C07.align_then_rotate_order_matters",
+    # deepening round D
+    "Verif.C07.kymo_pixels_refine_reduce",
+    "Verif.C07.kymo_pixels_refine",
+    "Verif.C07.reduce_max_min_spec",
+    "Verif.C07.kymo_stack_ok_iff",
+    "Verif.C07.kymoWindow_eq_pinned",
+    "Verif.C07.F20b_witness",
+    "Verif.C07.kymo_times_spec",
+    "Verif.C07.kymo_times_errors",
+    "Verif.C07.getitem_image_refines",
+    "Verif.C07.image_shape",
+    "Verif.C07.index_image_refines",
+    "Verif.C07.fresh_paged",
+    "Verif.C07.ranges_slice_refines",
+    "Verif.C07.ranges_index_refines",
+    "Verif.C07.crop_preserves_ranges",
+    "Verif.C07.start_stop_refine",
+    "Verif.C07.ranges_sorted",
+    "Verif.C07.slice_time_refines",
+    "Verif.C07.time_bound_cases",
+    "Verif.C07.crop_none_id",
+    "Verif.C07.getitem_tuple_cases",
+    "Verif.C07.interpret_crop_cases",
+    "Verif.C07.retether_horizontal_length",
+    "Verif.C07.retether_maps_content",
+    "Verif.C07.good_init",
+    "Verif.C07.good_frameItem",
+    "Verif.C07.good_crop",
+    "Verif.C07.good_preserved",
+    "Verif.C07.kymo_times_refine",
+    "Verif.C07.flat_tether_is_identity",
+    "Verif.C07.visible_frames_resolve",
+    "Verif.C07.define_tether_calibrated",
+    "Verif.C07.ranges_legacy_eq",
+    "Verif.C07.good_runOps",
+    "Verif.C07.program_image_refines",
 ]
 RULE = (
     "corpus (F2 inputs) + exhaustive small scope on real TIFF stacks of n<=6 frames of 4x5 pixels: every slice with "
@@ -57,7 +93,14 @@ RULE = (
     "slice.indices self-test; file/page lookup for all 1-3 files of 1-3 pages; legacy frame ranges + seeded random programs of 1-4 "
     "operations (frame slice, integer, crop_by_pixels, tuple index, time-string/timestamp slice, define_tether) on "
     "grey/RGB/two-colour, 1-3 file, constant/variable-exposure, legacy-export stacks of up to 60 frames; commuted "
-    "crop/slice pairs; horizontal-tether to_kymo (incl. the F20 class: left tether end cropped away); bead stacks (two "
+    "crop/slice pairs; time-like bounds exhaustively at the frame boundaries (start / exposure stop of every visible frame, "
+    "0/+1 ns, thorough: also -1 ns; absolute timestamps and time strings from the start and from the stop; plain and stepped "
+    "stacks); get_image() of every untethered program on a small stack compared pixel for pixel with the model's own pixel "
+    "values (op c07.image) and with the same NumPy indexing of the full array; to_kymo exhaustively on 3 frames of 4x5 pixels "
+    "(every integer tether row and pair of end columns, half windows -1..2, 0-4 columns cut off the left after the tether, "
+    "reduce = sum/max/min, stacks whose frame rate / exposure is not constant, single frames, RGB / two-colour / legacy) with "
+    "pixel values, line time, exposure and start compared exactly (op c07.kymo); pixel-calibrated stacks (define_tether in um); "
+    "random horizontal-tether to_kymo (incl. the F20 class: left tether end cropped away, and F20b: both ends); bead stacks (two "
     "Gaussian spots; grey, RGB without alignment metadata, RGB with non-identity Bluelake alignment matrices - shifts of "
     "up to 7 px, small rotations/scalings, alignment-ROI offsets - opened with align=True and align=False) with a tether "
     "defined through the two beads at a grid of angles (0, 30, 90, -135, 180 degrees) and at random angles, crops/frame "
@@ -88,10 +131,13 @@ ASSUMPTIONS = [
     "ImageStack.__init__ with 1 and preserved by every operation, proved)",
     "page timestamps are >= 2014-01-01 in ns (smaller integers are frame indices for pylake) and strictly increasing",
     "exposure metadata is an integer number of ns below 2^40 (round(1e6*ms) recovers it exactly)",
-    "to_kymo is exercised for horizontal left-to-right tethers on stacks of >= 2 frames with constant period and a "
-    "tether of >= 2 pixels (a single frame raises an undocumented IndexError, a 1-pixel tether an AxisError from "
-    "numpy's squeeze; rotated tethers go through skimage.warp: geometry of the end points checked, and on bead stacks "
-    "that every colour channel shows the chosen points on them; other interpolated pixel values are not compared)",
+    "to_kymo is exercised for horizontal left-to-right tethers; stacks of < 2 frames raise an undocumented IndexError "
+    "(modelled, not judged by the oracle), a 1-pixel kymograph an AxisError from numpy's squeeze (not generated); "
+    "reduce = np.sum / np.max / np.min (np.mean and user callables are outside); rotated tethers go through skimage.warp: "
+    "geometry of the end points checked, and on bead stacks that every colour channel shows the chosen points on them; other "
+    "interpolated pixel values are not compared",
+    "the to_kymo theorems are about the integer floors of the processed tether ends; model and code take that floor on the "
+    "same doubles",
     "bead stacks: the beads are followed only if, when the points are chosen, every colour channel of the image shows them "
     "at the chosen points within 0.25 px (holds for all generated cases on /repo; counted in coverage.bead_cases_followed)",
 ]
@@ -196,6 +242,8 @@ def run_prog(stack, prog):
         elif k == "T":
             stack = stack.define_tether((st[1], st[2]), (st[3], st[4]))
         elif k == "k":
+            if len(st) > 2:  # the rarely used `reduce` option
+                return stack, stack.to_kymo(half_window=st[1], reduce={"sum": np.sum, "max": np.max, "min": np.min}[st[2]])
             return stack, stack.to_kymo(half_window=st[1])
         else:
             raise ValueError(k)
@@ -233,9 +281,7 @@ def tether_ends(stack):
             ln.remove()
     if x.shape != (2,) or y.shape != (2,):
         raise RuntimeError(f"plot_tether drew a line of {x.shape} points")
-    if stack.pixelsize_um:  # calibrated stacks: image units -> pixels (none of the generated stacks is calibrated)
-        fx, fy = (float(v) for v in np.asarray(stack.pixelsize_um))
-        x, y = x / fx, y / fy
+    # calibrated stacks (stream "calibrated"): image units, as define_tether takes them; the model reports them likewise
     return [float(x[0]), float(y[0]), float(x[1]), float(y[1])]
 
 
@@ -313,7 +359,16 @@ def observe_kymo(spec, stack, kymo):
     shp = chans[0].shape
     vals = ";".join(",".join(str(float(v)) for v in a.ravel()) for a in chans)
     lt = kymo.line_time_seconds
-    return f"kymo {shp[0]}x{shp[1] if len(shp) > 1 else 1} [{vals}] lt={enc_float(lt)} start={int(kymo.start)}"
+    # exposure and line period as the kymograph reports them: stop - start of its first line without / with dead time
+    ex = dead = UNSEEN
+    try:
+        r0 = kymo.line_timestamp_ranges(include_dead_time=False)[0]
+        r1 = kymo.line_timestamp_ranges(include_dead_time=True)[0]
+        ex, dead = str(int(r0[1]) - int(r0[0])), str(int(r1[1]) - int(r1[0]))
+    except (AttributeError, TypeError) as e:
+        if not missing_here(e):
+            raise
+    return f"kymo {shp[0]}x{shp[1] if len(shp) > 1 else 1} [{vals}] lt={enc_float(lt)} start={int(kymo.start)} ex={ex} line={dead}"
 
 
 def impl_prog(spec, prog):
@@ -327,6 +382,55 @@ def impl_prog(spec, prog):
             return observe(spec, out)
         except Exception as e:
             return err_token(e)
+
+
+IMAGE_STREAMS = ("small-scope", "small-scope-flavours", "roi-stack", "time-exhaustive", "random-programs", "commute", "corpus")
+
+
+def wants_image(case):
+    """cases whose get_image() is also compared pixel for pixel with the model's own pixel values (op c07.image): untethered
+    programs on small stacks"""
+    if case["op"] != "prog" or case["stream"] not in IMAGE_STREAMS:
+        return False
+    spec = case["spec"]
+    if sum(spec["files"]) * spec["h"] * spec["w"] * bt.n_samples(spec) > 720:
+        return False
+    return not any(st[0] in ("T", "k") for st in case["prog"])
+
+
+def show_image(spec, arr):
+    """[frame, row, col(, colour)] -> `image <frame/frame/…>|<sample 1>|…`, one block per STORED sample"""
+    arr = np.asarray(arr)
+    if spec["colour"] == "grey":
+        planes = [arr]
+    else:
+        keep = [c for c, k in enumerate(sample_channels(spec)) if k is not None]
+        planes = [arr[..., c] for c in keep]
+        for c, k in enumerate(sample_channels(spec)):
+            if k is None and np.any(arr[..., c] != 0):
+                return "image channel-not-empty"
+    def frame(f):
+        return "[" + ";".join(",".join(str(int(v)) for v in row) for row in f) + "]"
+    return "image " + "|".join("/".join(frame(f) for f in pl) for pl in planes)
+
+
+def impl_image(spec, prog):
+    with warnings.catch_warnings():
+        warnings.simplefilter("ignore")
+        try:
+            stack, _, _ = stacks().get(spec)
+            out, _ = run_prog(stack, prog)
+            shape = tuple(int(x) for x in out.shape)
+            img = np.asarray(out.get_image())
+            if img.size != int(np.prod(shape)):
+                return f"image size {img.size} for shape {shape}"
+            return show_image(spec, img.reshape(shape))
+        except Exception as e:
+            return err_token(e)
+
+
+def image_line(spec, prog):
+    return f"c07.image {bt.n_samples(spec)} " + run_line(spec, prog)[len("c07.run "):]
 
 
 def first_frame(stack):
@@ -527,6 +631,10 @@ def impl(case):
     if k == "beads":
         return [impl_beads(case["spec"], case["prog"])]
     if k == "prog":
+        if wants_image(case):
+            first = impl_prog(case["spec"], case["prog"])
+            # third op (c07.ops: the program through the typed Stack.runOps): frames and ROI of the same observation
+            return [first, impl_image(case["spec"], case["prog"]), " ".join(first.split(" ")[:3]) if first.startswith("ok ") else first]
         return [impl_prog(case["spec"], case["prog"])]
     if k == "commute":
         return [impl_prog(case["spec"], case["prog"]), impl_prog(case["spec"], case["prog2"])]
@@ -548,7 +656,8 @@ def impl(case):
 # ------------------------------------------------------------------ model side
 
 
-def prog_tokens(prog):
+def prog_tokens(prog, spec=None):
+    nm = spec.get("pixelsize_nm") if spec else None
     toks = []
     for st in prog:
         k = st[0]
@@ -563,9 +672,12 @@ def prog_tokens(prog):
         elif k == "t":
             toks.append(f"t,{enc_bound_model(st[1])},{enc_bound_model(st[2])},{enc_opt(st[3])}")
         elif k == "T":
-            toks.append("T," + ",".join(enc_float(x) for x in st[1:5]))
+            if nm is not None:  # pixel-calibrated stack: the points are in um, the model divides by nm / 1000
+                toks.append("U," + enc_float(float(nm)) + "," + ",".join(enc_float(x) for x in st[1:5]))
+            else:
+                toks.append("T," + ",".join(enc_float(x) for x in st[1:5]))
         elif k == "k":
-            toks.append(f"k,{int(st[1])}")
+            toks.append(f"k,{int(st[1])}" + (f",{st[2]}" if len(st) > 2 else ""))
         else:
             raise ValueError(k)
     return " ".join(toks)
@@ -576,7 +688,7 @@ def run_line(spec, prog):
     legacy = "Pylake" in spec["software"] and spec["exposure"] is None
     return (
         f"c07.run {spec['h']} {spec['w']} {enc_list([t[0] for t in table])} {enc_list([t[1] for t in table])} "
-        f"{enc_list([t[2] for t in table])} {'T' if legacy else 'F'} {prog_tokens(prog)}"
+        f"{enc_list([t[2] for t in table])} {'T' if legacy else 'F'} {prog_tokens(prog, spec)}"
     ).rstrip()
 
 
@@ -595,6 +707,11 @@ def ops(case):
     if k == "beads":
         return [land_line(case["spec"], case["prog"])]
     if k == "prog":
+        if is_kymo(case["prog"]):
+            return [kymo_line(case["spec"], case["prog"])]
+        if wants_image(case):
+            rl = run_line(case["spec"], case["prog"]).split(" ")
+            return [" ".join(rl), image_line(case["spec"], case["prog"]), " ".join(["c07.ops"] + rl[1:6] + rl[7:])]
         return [run_line(case["spec"], case["prog"])]
     if k == "commute":
         return [run_line(case["spec"], case["prog"]), run_line(case["spec"], case["prog2"])]
@@ -609,24 +726,16 @@ def ops(case):
     raise ValueError(k)
 
 
+def is_kymo(prog):
+    return bool(prog) and prog[-1][0] == "k"
+
+
 def tether_close(a, b):
     if a == "none" or b == "none":
         return a == b
     xa = [dec_float(t) for t in a.split(",")]
     xb = [dec_float(t) for t in b.split(",")]
     return len(xa) == len(xb) and all(abs(p - q) <= 1e-9 * (1 + abs(p) + abs(q)) for p, q in zip(xa, xb))
-
-
-def expected_kymo(spec, frames, roi, w):
-    """kymograph channels the model's answer (frames + ROI of the stack behind to_kymo) stands for"""
-    full = np.asarray(bt.full_array(spec), dtype=float)
-    x0, x1, y0, y1 = roi
-    sub = full[frames][:, y0:y1, x0:x1]
-    sub = sub.sum(axis=1)  # time, x(, c)
-    sub = np.swapaxes(sub, 0, 1)
-    if sub.ndim == 2:
-        sub = np.repeat(sub[:, :, np.newaxis], 3, axis=2)
-    return [sub[:, :, c] for c in range(3)]
 
 
 def parse_kymo(ans):
@@ -636,6 +745,32 @@ def parse_kymo(ans):
     lt = dec_float(toks[3][3:])
     start = int(toks[4][6:])
     return chans, lt, start
+
+
+def parse_kymo_times(ans):
+    """(exposure ns | None, line period ns | None) as the kymograph's own line ranges report them"""
+    toks = ans.split(" ")
+    out = []
+    for t, key in zip(toks[5:7], ("ex=", "line=")):
+        v = t[len(key):]
+        out.append(None if v == UNSEEN else int(v))
+    return out if len(out) == 2 else [None, None]
+
+
+def kymo_line(spec, prog):
+    """c07.kymo: the program as for c07.run; the model computes the kymograph's pixel values itself from the harness'
+    pixel encoding (builders_tiff.pixel_value), one image per stored sample"""
+    return f"c07.kymo {bt.n_samples(spec)} " + run_line(spec, prog)[len("c07.run "):]
+
+
+def sample_channels(spec):
+    """which of the kymograph's (red, green, blue) each stored sample shows up in; None = the channel must be empty"""
+    if spec["colour"] == "grey":
+        return [0, 0, 0]
+    if spec["colour"] == "rgb":
+        return [0, 1, 2]
+    order = [i for i, c in enumerate(("Red", "Green", "Blue")) if c in spec["two_channels"]]
+    return [order.index(i) if i in order else None for i in range(3)]
 
 
 BEAD_TOL = 0.25  # pixels: centroid of an interpolated spot vs. computed position (measured on /repo: < 0.02 over 80000 spots)
@@ -709,7 +844,9 @@ def agree_beads(case, ia, ma):
         return False
     if not beads_pre_ok(case["spec"], case["prog"], o):
         return True  # the spots cannot be followed on this stack: nothing to compare
-    land = [[[dec_float(v) for v in pt.split(",")] for pt in ch.split(";")] for ch in mt[8].split("|")]
+    if [f"nf={o['nf']}"] + [str(v) for v in o["shape"][:3]] != [mt[8]] + mt[9][len("shape="):].split("x"):
+        return False
+    land = [[[dec_float(v) for v in pt.split(",")] for pt in ch.split(";")] for ch in mt[-1].split("|")]
     for frame in o["post"]:
         if len(frame) != len(land):
             return False
@@ -719,30 +856,49 @@ def agree_beads(case, ia, ma):
     return True
 
 
+def agree_kymo(case, ia, ma):
+    """model: `kymo <line time ns> <exposure ns> <start> <image[x][t] per stored sample>`; the pixel values are the model's
+    own (window, reduction over the half window, swapped axes), compared exactly"""
+    if not ma.startswith("kymo "):
+        return ia == ma
+    if not ia.startswith("kymo "):
+        return False
+    chans, lt, start = parse_kymo(ia)
+    ex, line = parse_kymo_times(ia)
+    mt = ma.split(" ")
+    m_lt, m_ex, m_start = int(mt[1]), int(mt[2]), int(mt[3])
+    imgs = []
+    for part in mt[4].split("|"):
+        if not (part.startswith("[") and part.endswith("]")):
+            return False
+        rows = [[int(v) for v in r.split(",")] if r else [] for r in part[1:-1].split(";")]
+        imgs.append(np.array(rows, dtype=float))
+    for c, k in enumerate(sample_channels(case["spec"])):
+        exp = np.zeros_like(imgs[0]) if k is None else imgs[k]
+        if exp.shape != chans[c].shape or not np.array_equal(exp, chans[c]):
+            return False
+    if start != m_start or abs(lt - m_lt * 1e-9) > 1e-12 * abs(lt):
+        return False
+    return (ex is None or ex == m_ex) and (line is None or line == m_lt)
+
+
 def agree(case, i, ia, ma):
     if case["op"] == "beads":
         return agree_beads(case, ia, ma)
     if case["op"] in ("prog", "commute"):
+        if case["op"] == "prog" and is_kymo(case["prog"]):
+            return agree_kymo(case, ia, ma)
+        if case["op"] == "prog" and i >= 1:
+            return ia == ma  # c07.image: pixel values (or the error) literally; c07.ops: frames and ROI (or the error)
         if not ma.startswith("ok "):
             return ia == ma
         mt = ma.split(" ")
-        prog = case["prog"] if i == 0 else case["prog2"]
-        if prog and prog[-1][0] == "k":
-            if not ia.startswith("kymo "):
-                return False
-            chans, lt, start = parse_kymo(ia)
-            frames = json.loads(mt[1])
-            roi = [int(x) for x in mt[2].split(",")]
-            exp = expected_kymo(case["spec"], frames, roi, prog[-1][1])
-            if any(e.shape != c.shape or not np.array_equal(e, c) for e, c in zip(exp, chans)):
-                return False
-            starts = [int(x.split(":")[0]) for x in mt[3][1:-1].split(",")]
-            if start != starts[0]:
-                return False
-            return len(starts) < 2 or abs(lt - (starts[1] - starts[0]) * 1e-9) <= 1e-12 * abs(lt)
         if not ia.startswith("ok "):
             return False
         it = ia.split(" ")
+        # num_frames and shape (without the colour axis) as the model's Stack.shape
+        if it[8] != mt[8] or it[9].split("x")[:3] != mt[9].split("x"):
+            return False
         return all(a == UNSEEN or a == b for a, b in zip(it[1:3], mt[1:3])) and it[3:7] == mt[3:7] and tether_close(it[7], mt[7])
     if ia == UNSEEN:
         return True  # an internal helper with no public counterpart for this input could not be reached: nothing to compare
@@ -787,7 +943,8 @@ def simulate(spec, prog):
         if len(r2) == 0 or len(c2) == 0:
             raise Expect("ValueError")
         if geo["mid"] is not None:
-            geo["mid"] = (geo["mid"][0] - (c2[0] - cols[0]), geo["mid"][1] - (r2[0] - rows[0]))
+            cal = float(spec["pixelsize_nm"]) / 1000 if spec.get("pixelsize_nm") else 1.0  # image units per pixel
+            geo["mid"] = (geo["mid"][0] - (c2[0] - cols[0]) * cal, geo["mid"][1] - (r2[0] - rows[0]) * cal)
         rows, cols = r2, c2
 
     def frames(item):
@@ -917,21 +1074,43 @@ def oracle_prog(spec, prog, ans):
     return None
 
 
+def oracle_image(spec, prog, ans):
+    """get_image() of the result is the same NumPy indexing of the full [frame, row, column(, colour)] array"""
+    try:
+        pages, rows, cols, _ = simulate(spec, prog)
+    except Expect as e:
+        return None if ans == e.token else f"error-clause: numpy/array semantics give {e.token}, get_image() path says {ans[:100]}"
+    full = np.asarray(bt.full_array(spec))
+    exp = show_image(spec, full[np.asarray(pages)][:, rows[0] : rows[-1] + 1, cols[0] : cols[-1] + 1])
+    return None if ans == exp else f"pixels: get_image() differs from the same numpy indexing of the full array: {ans[:120]} vs {exp[:120]}"
+
+
 def oracle_kymo(spec, prog, pages, rows, cols, geo, ans):
     """pixel values along the tether row reduced (sum) over the half window, per frame; line time and start from
     the frame timestamps.  Only for horizontal left-to-right tethers (identity warp)."""
     w = prog[-1][1]
     table = bt.page_table(spec)
+    if len(pages) < 2:
+        return None  # a single frame: outside (undocumented IndexError before anything else is looked at)
     if not geo["defined"]:
         return None if ans == "ValueError" else f"kymo: no tether defined, expected ValueError, got {ans[:100]}"
     if not geo.get("flat"):
         return None  # rotated tether: outside
+    if len(pages) >= 2:
+        starts = [table[p][0] for p in pages]
+        expos = [table[p][2] - table[p][0] for p in pages]
+        if len({b - a for a, b in zip(starts, starts[1:])}) > 1 or len(set(expos)) > 1:
+            return None if ans == "ValueError" else f"kymo-timing: frame rate or exposure not constant, expected ValueError, got {ans[:100]}"
     mx, my = geo["mid"]
     xa, xb = mx - geo["len"] / 2, mx + geo["len"] / 2
     row = math.floor(my)
     if w < 0 or row - w < 0 or row + w + 1 > len(rows):
         return None if ans == "ValueError" else f"kymo-window: half window {w} leaves the image, expected ValueError, got {ans[:100]}"
     lo, hi = math.floor(xa), math.floor(xb) + 1
+    if hi <= 0:
+        # no pixel of the tether row lies inside the (cropped) image: nothing "along the tether" can be returned
+        return None if ans == "ValueError" else (
+            f"kymo-outside: the tether ({xa}..{xb}) lies entirely left of the cropped image, expected ValueError, got {ans[:100]}")
     outside_left = lo < 0
     if lo < 0:
         lo = 0  # the part of the tether row that lies inside the (cropped) image
@@ -945,18 +1124,25 @@ def oracle_kymo(spec, prog, pages, rows, cols, geo, ans):
         return f"kymo: expected a kymograph of {hi - lo} pixels x {len(pages)} lines, got {ans[:100]}"
     chans, lt, start = parse_kymo(ans)
     full = np.asarray(bt.full_array(spec), dtype=float)
-    sub = full[pages][:, rows[row - w] : rows[row + w] + 1, cols[lo] : cols[hi - 1] + 1].sum(axis=1)
+    sub = full[pages][:, rows[row - w] : rows[row + w] + 1, cols[lo] : cols[hi - 1] + 1]
+    sub = {"sum": sub.sum, "max": sub.max, "min": sub.min}[prog[-1][2] if len(prog[-1]) > 2 else "sum"](axis=1)
     sub = np.swapaxes(sub, 0, 1)
     if sub.ndim == 2:
         sub = np.repeat(sub[:, :, np.newaxis], 3, axis=2)
     for c in range(3):
         if chans[c].shape != sub[:, :, c].shape or not np.array_equal(chans[c], sub[:, :, c]):
-            return f"kymo-pixels: channel {c} differs from the tether-row pixels summed over +-{w} rows"
+            return f"kymo-pixels: channel {c} differs from the tether-row pixels reduced over +-{w} rows"
     if start != table[pages[0]][0]:
         return f"kymo-start: {start} vs first frame start {table[pages[0]][0]}"
     lt_exp = (table[pages[1]][0] - table[pages[0]][0]) * 1e-9
     if abs(lt - lt_exp) > 1e-12 * lt_exp:
         return f"kymo-line-time: {lt} vs {lt_exp}"
+    ex, line = parse_kymo_times(ans)
+    ex_exp = table[pages[0]][2] - table[pages[0]][0]
+    if ex is not None and ex != ex_exp:
+        return f"kymo-exposure: lines are exposed for {ex} ns, the frames for {ex_exp} ns"
+    if line is not None and line != table[pages[1]][0] - table[pages[0]][0]:
+        return f"kymo-line-time: line ranges with dead time are {line} ns long, the frames start {table[pages[1]][0] - table[pages[0]][0]} ns apart"
     return None
 
 
@@ -1014,7 +1200,10 @@ def oracle(case, ia):
     if k == "beads":
         return oracle_beads(case["spec"], case["prog"], ia[0])
     if k == "prog":
-        return oracle_prog(case["spec"], case["prog"], ia[0])
+        r = oracle_prog(case["spec"], case["prog"], ia[0])
+        if r is None and len(ia) >= 2:
+            r = oracle_image(case["spec"], case["prog"], ia[1])
+        return r
     if k == "commute":
         for prog, a in ((case["prog"], ia[0]), (case["prog2"], ia[1])):
             r = oracle_prog(case["spec"], prog, a)
@@ -1102,11 +1291,13 @@ def tags(case, r):
         t["crop_or_tether_after_stepped_slice"] = crop_after_step
         t["kinds"] = "".join(kinds)
         t["kymo_tether_left_end_outside_image"] = kymo_left_outside(case)
+        t["kymo_tether_entirely_left_of_image"] = kymo_left_outside(case, whole=True)
     return t
 
 
-def kymo_left_outside(case):
-    """to_kymo on a horizontal tether whose left end has a negative x in the current (cropped) image"""
+def kymo_left_outside(case, whole=False):
+    """to_kymo on a horizontal tether whose left end (whole=True: whose right end, too) has a negative x in the current
+    (cropped) image"""
     prog = case["prog"]
     if not prog or prog[-1][0] != "k":
         return False
@@ -1114,7 +1305,11 @@ def kymo_left_outside(case):
         _, _, _, geo = simulate(case["spec"], prog[:-1])
     except Expect:
         return False
-    return bool(geo["defined"] and geo.get("flat") and math.floor(geo["mid"][0] - geo["len"] / 2) < 0)
+    if not (geo["defined"] and geo.get("flat")):
+        return False
+    if whole:
+        return math.floor(geo["mid"][0] + geo["len"] / 2) + 1 <= 0
+    return math.floor(geo["mid"][0] - geo["len"] / 2) < 0
 
 
 def shrink(case):
@@ -1617,6 +1812,92 @@ def cases(tier, rng):
         crop = ["c", *rnd_range(sub, w, 0.35), *rnd_range(sub, h, 0.35)]
         yield {"stream": "commute", "op": "commute", "spec": spec, "prog": pre + [crop, sel], "prog2": pre + [sel, crop], "subseed": i}
 
+    # ---- time-like bounds, exhaustive small scope: 4 frames (and the stepped stack [::2] of 6), every pair of bounds among
+    # None and start/exposure-stop of every visible frame -1/0/+1 ns, as absolute timestamps and as time strings counted
+    # from the start (>= 0) and from the stop (< 0) of the current stack
+    tvariants = ((small_spec(4), []), (small_spec(6), [["s", None, None, 2]]), (small_spec(6), [["s", 1, 5, None]]))
+    for tspec, pre in (tvariants[:2] if quick else tvariants):
+        table = bt.page_table(tspec)
+        vis = list(range(sum(tspec["files"])))[slice(*pre[0][1:4])] if pre else list(range(sum(tspec["files"])))
+        # a frame is selected when a <= start and exposure stop < b: 0 / +1 ns are the two sides of either comparison
+        marks = sorted({table[p][k] + d for p in vis for k in (0, 2) for d in ((0, 1) if quick else (-1, 0, 1))})
+        first, last = table[vis[0]][0], table[vis[-1]][2]
+        absb = [None] + marks
+        for a, b in itertools.product(absb, absb):
+            yield prog_case("time-exhaustive", tspec, pre + [["t", a, b, None]])
+        strb = [None] + [{"s": f"{m - first}ns", "ns": m - first} for m in marks if m - first >= 0] + \
+               [{"s": f"-{last - m}ns", "ns": m - last} for m in marks if m - last < 0]
+        for a, b in itertools.product(strb, strb):
+            if isinstance(a, dict) or isinstance(b, dict):
+                yield prog_case("time-exhaustive", tspec, pre + [["t", a, b, 2 if (a is None or b is None) else None]])
+
+    # ---- pixel-calibrated stacks: define_tether takes the points in um (divided by nm/1000 by the code), plot_tether
+    # reports the ends in um; crops / frame selections before and after, re-tethering
+    KC = 120 if quick else 1500
+    r = rng.fork("c07-calibrated")
+    for i in range(KC):
+        sub = r.fork(i)
+        nm = sub.choice([100.0, 72.5, 333.3, 1000.0, 64.0])
+        h, w, n = sub.randint(3, 7), sub.randint(4, 9), sub.randint(1, 6)
+        spec = bt.make_spec(files=(n,), h=h, w=w, colour=sub.choice(["grey", "grey", "rgb"]), pixelsize_nm=nm)
+        cal = nm / 1000
+        prog = []
+        cw, chh = w, h
+        if sub.chance(0.4):
+            prog.append(["s", sub.choice([None, 0, 1]), None, sub.choice([None, 2])])
+            if len(range(*slice(prog[0][1], None, prog[0][3]).indices(n))) < 1:
+                prog = []
+        if sub.chance(0.4) and w >= 5 and h >= 4:
+            ox, oy = sub.randint(0, 1), sub.randint(0, 1)
+            prog.append(["c", ox, None, oy, None])
+            cw, chh = w - ox, h - oy
+        x1, x2 = sub.uniform(0, cw) * cal, sub.uniform(0, cw) * cal
+        y1, y2 = sub.uniform(0, chh) * cal, sub.uniform(0, chh) * cal
+        if sub.chance(0.3):
+            y2 = y1
+            x1, x2 = min(x1, x2), max(x1, x2) + 0.5 * cal
+        if abs(x1 - x2) + abs(y1 - y2) < 0.5 * cal:
+            x2 = x1 + cal
+        prog.append(["T", x1, y1, x2, y2])
+        if sub.chance(0.4) and cw >= 4 and chh >= 3:
+            prog.append(["c", sub.choice([None, 1]), sub.choice([None, cw - 1]), sub.choice([None, 1]), None])
+        if sub.chance(0.2):
+            prog.append(["T", sub.uniform(0, 2) * cal, sub.uniform(0, 2) * cal, sub.uniform(2.5, 3.5) * cal, sub.uniform(0, 2) * cal])
+        yield prog_case("calibrated", spec, prog, subseed=i)
+
+    # ---- to_kymo, exhaustive small scope: 3 frames of 4x5 pixels, every integer tether row / pair of end columns, every
+    # half window in -1..2, a crop cutting 0..4 columns off the left AFTER the tether (left end outside: F20; both ends
+    # outside: F20b), a stepped frame selection before; stacks whose timing must be refused
+    kspec = small_spec(3)
+    for x1 in range(0, 5):
+        for x2 in range(x1 + 1, 5):
+            for y in range(0, 4):
+                for hw in (-1, 0, 1, 2):
+                    for cut in (None, 1, 2, 3, 4):
+                        c = cut or 0
+                        if min(x2 - c + 1, 5 - c) - max(x1 - c, 0) == 1:
+                            continue  # a 1-pixel kymograph: outside (AxisError of numpy's squeeze)
+                        prog = [["T", float(x1), float(y), float(x2), float(y)]]
+                        if cut is not None:
+                            prog.append(["c", cut, None, None, None])
+                        yield prog_case("kymo-exhaustive", kspec, prog + [["k", hw]])
+                        if hw > 0 and cut in (None, 2) and y in (1, 2):
+                            for red in ("max", "min"):
+                                yield prog_case("kymo-exhaustive", kspec, prog + [["k", hw, red]])
+    for spec in (
+        bt.make_spec(files=(6,), exposure=[10_000_000, 20_000_000, 30_000_000, 40_000_000, 50_000_000, 60_000_000], **SMALL),
+        bt.make_spec(files=(6,), exposure=[10_000_000, 10_000_000, 10_000_000, 10_000_000, 30_000_000, 10_000_000], **SMALL),
+        bt.make_spec(files=(2, 3, 1), gap=50_000_000, **SMALL),
+        bt.make_spec(files=(6,), colour="rgb", **SMALL),
+        bt.make_spec(files=(6,), colour="two", **SMALL),
+        bt.make_spec(files=(6,), exposure=None, frame_len=80_000_000, **SMALL),
+    ):
+        for pre in ([], [["s", None, 4, None]], [["s", None, None, 2]], [["s", 1, 3, None]], [["s", 2, None, 3]], [["i", 1]],
+                    [["c", 1, None, 1, None]]):
+            for hw in (0, 1):
+                yield prog_case("kymo-exhaustive", spec, pre + [["T", 1.0, 1.0, 3.0, 1.0], ["k", hw]])
+            yield prog_case("kymo-exhaustive", spec, pre + [["k", 0]])
+
     # ---- horizontal tethers and kymographs
     K = 200 if quick else 2000
     r = rng.fork("c07-kymo")
@@ -1646,6 +1927,8 @@ def cases(tier, rng):
             # crop after the tether (keeps the left end inside)
             prog.append(["c", None, sub.choice([None, cw - 1]) if cw - 1 > x1 + 2 else None, None, None])
         prog.append(["k", sub.choice([0, 0, 1, 1, 2])])
+        if sub.chance(0.25):
+            prog[-1].append(sub.choice(["sum", "max", "min"]))
         yield prog_case("kymo", spec, prog, subseed=i)
     # ---- where the pixels go: stacks showing two beads, tether through the beads at any angle (interpolated pixel
     # values), every colour channel, non-identity colour alignment, crops and frame selections before and after
@@ -1670,7 +1953,10 @@ def cases(tier, rng):
         x2 = sub.randint(w - 2, w - 1)
         y = sub.randint(0, h - 1)
         cut = sub.randint(x1 + 1, x2 - 2)
-        prog = [["T", float(x1), float(y), float(x2), float(y)], ["c", cut, None, None, None], ["k", 0]]
+        if sub.chance(0.15):  # both ends cut off (F20b)
+            x2 = sub.randint(x1 + 1, w - 4)
+            cut = sub.randint(x2 + 1, w - 2)
+        prog = [["T", float(x1), float(y), float(x2), float(y)], ["c", cut, None, None, None], ["k", sub.choice([0, 0, 1])]]
         yield prog_case("kymo-outside", spec, prog, subseed=i)
 
 
@@ -1701,12 +1987,51 @@ def extra_coverage(results):
             files[len(s["files"])] = files.get(len(s["files"]), 0) + 1
             for st in c["prog"]:
                 lens[st[0]] = lens.get(st[0], 0) + 1
+    image_cases, kymo_branches = {}, {}
+    for r in results:
+        c = r["case"]
+        if c["op"] == "prog" and len(r["impl"]) >= 2:
+            key = c["stream"] + (" (pixels)" if r["impl"][1].startswith("image ") else " (raises)")
+            image_cases[key] = image_cases.get(key, 0) + 1
+        if c["op"] == "prog" and is_kymo(c["prog"]):
+            a = r["impl"][0]
+            if a.startswith("kymo "):
+                hw = c["prog"][-1][1]
+                red = c["prog"][-1][2] if len(c["prog"][-1]) > 2 else "sum (default)"
+                key = "kymograph, half window " + ("0 (single row, no reduction)" if hw == 0 else f"> 0 (rows reduced with {red})")
+                if kymo_left_outside(c):
+                    key += ", left tether end outside the image (clamped)"
+                if kymo_left_outside(c, whole=True):
+                    key += " - F20b"
+            else:
+                key = "refused: " + a.split(":")[0]
+            kymo_branches[key] = kymo_branches.get(key, 0) + 1
+    time_branches, calibrated = {}, {}
+    for r in results:
+        c = r["case"]
+        if c["op"] == "prog" and c["stream"] == "time-exhaustive":
+            a = r["impl"][0]
+            st = c["prog"][-1]
+            kind = "/".join("None" if b is None else ("string" if isinstance(b, dict) else "timestamp") for b in st[1:3])
+            if a.startswith("ok "):
+                n_sel = len(json.loads(a.split(" ")[1]))
+                n_before = len(range(*slice(*c["prog"][0][1:4]).indices(sum(c["spec"]["files"])))) if len(c["prog"]) > 1 else sum(c["spec"]["files"])
+                key = kind + (": all frames" if n_sel == n_before else ": proper subset")
+            else:
+                key = kind + ": " + a.split(":")[0]
+            time_branches[key] = time_branches.get(key, 0) + 1
+        if c["op"] == "prog" and c["stream"] == "calibrated":
+            kinds = "".join(st[0] for st in c["prog"])
+            key = ("re-tethered" if kinds.count("T") > 1 else "tether") + (", cropped afterwards" if "c" in kinds.split("T", 1)[1] else "")
+            calibrated[key] = calibrated.get(key, 0) + 1
     unseen = sum(1 for r in results for a in r["impl"] if a == UNSEEN or f" {UNSEEN} " in a or "src=" + UNSEEN in a)
     return {
         "internal_helpers_reached": {k: v is not None for k, v in sorted(_PRIVATE.items())},
         "answers_with_unobserved_internals": unseen,
         "case_kinds": kinds, "error_kinds": errs, "stack_sizes": sizes, "colour_formats": colours, "files_per_stack": files,
-        "operations_by_kind": lens, "bead_cases_followed": beads, "exhaustive": False,
-        "exhaustive_note": "small-scope, roi-exhaustive, py-selftest, pages, legacy streams enumerate their finite spaces "
-                           "completely; random-programs, commute, kymo streams are seeded samples",
+        "operations_by_kind": lens, "get_image_pixel_comparisons": image_cases, "to_kymo_branches": kymo_branches,
+        "time_bound_branches": time_branches, "calibrated_tether_cases": calibrated, "bead_cases_followed": beads, "exhaustive": False,
+        "exhaustive_note": "small-scope, roi-exhaustive, py-selftest, pages, legacy, time-exhaustive, kymo-exhaustive streams "
+                           "enumerate their finite spaces completely; random-programs, commute, kymo, calibrated, beads "
+                           "streams are seeded samples",
     }
